@@ -28,7 +28,7 @@ class McRun:
 
     def execute(self, bdir, pid, known, remaining):
         cmd = [self.target(bdir), '--harness', self.harness, '--bound', str(self.bound), '--jobs', str(self.jobs),
-               '--deadline', '%.1f' % max(2.0, min(self.budget, remaining)), '--replay-dir', os.environ.get('VERIF_REPLAY_DIR', 'replays') + '/' + pid]
+               '--deadline', '%.1f' % max(2.0, min(self.budget * float(os.environ.get('VERIF_BUDGET_SCALE', '1') or 1), remaining)), '--replay-dir', os.environ.get('VERIF_REPLAY_DIR', 'replays') + '/' + pid]
         if self.tag:
             cmd += ['--tag', self.tag]
         if self.max_execs:
